@@ -151,6 +151,19 @@ pub const HARD_CAP: usize = 12 << 30;
 fn on_alloc(size: usize) {
     let _ = ARMED.try_with(|a| {
         if a.get() {
+            // every allocation of the code under test is also a sampling point of its stack depth
+            let here = 0u8;
+            let addr = &here as *const u8 as usize;
+            let _ = STACK_BASE.try_with(|b| {
+                let base = b.get();
+                if base != 0 && base > addr {
+                    let _ = STACK_DEPTH.try_with(|d| {
+                        if base - addr > d.get() {
+                            d.set(base - addr)
+                        }
+                    });
+                }
+            });
             let _ = A_COUNT.try_with(|c| c.set(c.get() + 1));
             let _ = A_TOTAL.try_with(|c| c.set(c.get().wrapping_add(size as u64)));
             let _ = A_MAXREQ.try_with(|c| {
@@ -236,7 +249,8 @@ pub struct AllocStats {
     pub max_request: usize,
     pub peak_live: i64,
     pub total: u64,
-    /// deepest stack position (bytes below the point where the observation started) seen at a transport call
+    /// deepest stack position (bytes below the point where the observation started) seen at a transport call or at an
+    /// allocation of the code under test
     pub max_stack_depth: usize,
 }
 
